@@ -18,7 +18,8 @@ MNext ==
        \/ w = 7         /\ \E t \in {Pick(Contracts \cup Denoms)} : Step(ToggleEff(t), "Toggle", ToggleOK(t), [t |-> t])
        \/ w \in {8, 9}  /\ \E o \in {IF DOMAIN byErc20 # {} /\ Pick(1..4) # 1 THEN Pick(DOMAIN byErc20) ELSE c} :
                            \E nw \in {Pick(Contracts \ {o})} : Step(UpdateEff(o, nw), "UpdateERC20", UpdateOK(o, nw), [old |-> o, new |-> nw])
-       \/ w = 10        /\ \E on \in {IF enabled THEN Pick(1..3) # 1 ELSE TRUE} : Step(ParamEff(on), "Param", TRUE, [on |-> on])
+       \/ w = 10        /\ (IF Pick(1..4) = 1 THEN \E on \in {Pick(BOOLEAN)} : Step(ParamHookEff(on), "ParamHook", TRUE, [on |-> on])
+                            ELSE \E on \in {IF enabled THEN Pick(1..3) # 1 ELSE TRUE} : Step(ParamEff(on), "Param", TRUE, [on |-> on]))
        (* only contracts with a byte code of their own are destroyed: ethermint deletes code by hash, so   *)
        (* destroying one of several contracts with identical byte code kills all of them (harness note)  *)
        \/ w = 11        /\ \E x \in {Pick(BadContracts)} :
